@@ -258,6 +258,20 @@ theorem fker_eq (n : ℕ) (a k : ℤ) : fker n a k = E n (a * k) := by
 theorem ker_centered_eq (n : ℕ) (x u : ℤ) : ker (1 / n) n n 0 0 x u = E n ((x - (n : ℤ) / 2) * (u - (n : ℤ) / 2)) := by
   unfold ker cc E; congr 1; push_cast; ring
 
+/-- the kernel on a full period with an integer shift, in terms of the character -/
+theorem ker_int_shift_eq (n : ℕ) (off s : ℤ) (x u : ℤ) :
+    ker (1 / n) n n off ((s : ℤ) : ℝ) x u = E n ((x - (n : ℤ) / 2 + off) * (u - (n : ℤ) / 2 - s)) := by
+  unfold ker cc E; congr 1; push_cast; ring
+
+/-- on a full period an integer shift only moves the output index: sample `u` with shift `s` is sample `(u − s) mod n` without -/
+theorem ker_int_shift_roll (n : ℕ) (hn : 0 < n) (off s : ℤ) (x u : ℤ) :
+    ker (1 / n) n n off ((s : ℤ) : ℝ) x u = ker (1 / n) n n off 0 x ((u - s) % n) := by
+  have h0 : ker (1 / n) n n off 0 x ((u - s) % n) = ker (1 / n) n n off ((0 : ℤ) : ℝ) x ((u - s) % n) := by simp
+  rw [h0, ker_int_shift_eq, ker_int_shift_eq]
+  apply E_congr n hn
+  rw [Int.emod_def (u - s) n]
+  exact ⟨(x - (n : ℤ) / 2 + off) * ((u - s) / n), by ring⟩
+
 /-! ## the model's transforms in sum form -/
 
 /-- `idft2` as sums: the adjoint kernel applied to `F`, scaled by `√|αr αc|` (unitary) or `1/F.size` -/
